@@ -17,7 +17,8 @@ TEXT = ("G1: in reload, refresh and reload_until every call with a (transitive) 
         "keys, record arities and positional layout written by stage / DataStorage::stage equal those read by "
         "replay_stage / DataStorage::replay_stage, and replayed revisions are added staged. G5 (who-may-write): the "
         "staging flags are set only by or-ing the argument on insertion and cleared only by commit / unstage; "
-        "has_staging is an any-fold over all trees. The tree-level flag is raised only behind the absence test of the revision being inserted; replay_stage drops no record it recognised (G4c). Does not decide exact restoration over arbitrary staged sets.")
+        "has_staging is an any-fold over all trees. The tree-level flag is raised only behind the absence test of the revision being inserted; replay_stage drops no record it recognised (G4c). Does not decide exact restoration over arbitrary staged sets."
+        " G4d: an update record is replayed under Some(previous) with a revision built on it.")
 TECHNIQUE = 'static analysis over rustc MIR: staging-guard dominance on every state-writing public operation, completeness of unstage, export/replay table agreement, insertion independent of tree content'
 TRUSTED = ["rustc nightly MIR", "effect summaries over the resolved call graph", "C01/L2 (unstage re-validates)", "C09/O2"]
 
